@@ -275,6 +275,7 @@ FSM_OPERATION_MAP_SOURCE = {
     FSMStatus.IN_EXPLAIN_2_AFTER_2A: {
         "/": (FSMOperate.add_and_handle_cache_to_wait(marks=AMTMark.COMMENT)
               if not LEXICAL_IGNORE_COMMENT else FSMOperate.move_and_clean_cache_to_wait()),
+        "*": FSMOperate.add_cache_to(status=FSMStatus.IN_EXPLAIN_2_AFTER_2A),  # 连续的 * 符号，例如：/***/
         END: FSMOperate.raise_error(),
         DEFAULT: FSMOperate.add_cache_to(status=FSMStatus.IN_EXPLAIN_2)
     },
